@@ -34,6 +34,20 @@ def run(ctx):
     tf = {f["name"]: f for f in tag["fields"]}
     itf = {f["name"]: f for f in it["fields"]}
     need = [n for n in ("i", "entries", "mmap_tag") if n not in itf] + [n for n in ("memory_map", "desc_size", "desc_version") if n not in tf]
+    chunk_f = [f for f in it["fields"] if str(f["ty"]).startswith("core::slice::iter::ChunksExact<") and str(f["ty"]).rstrip(">").endswith("u8")]
+    rep = "index"
+    if need and len(chunk_f) == 1 and not [n for n in ("memory_map", "desc_size", "desc_version") if n not in tf]:
+        # the iterator delegates to std's slice::ChunksExact over the map: the strided walk is then the std contract of
+        # chunks_exact (consecutive chunks of exactly `chunk_size` bytes, front to back; remainder left out), and the premises are
+        # stated about the delegation instead of about an index
+        rep = "chunks"
+        need = []
+    suf_r = [f for f in it["fields"] if str(f["ty"]).startswith("&") and str(f["ty"]).endswith("[u8]") and "mut" not in str(f["ty"])]
+    suf_d = [f for f in it["fields"] if f["ty"] == "usize"]
+    if need and len(suf_r) == 1 and len(suf_d) == 1 and not [n for n in ("memory_map", "desc_size", "desc_version") if n not in tf]:
+        # a cursor: the not yet consumed rest of the map plus the stride; each next() takes the first `stride` bytes off the rest
+        rep = "suffix"
+        need = []
     if need:
         # the rules below are written for the (tag reference, index, entry count) representation of the iterator
         ctx.fail("ANCHOR", "EFIMemoryAreaIter:representation", "EFIMemoryAreaIter keeps (mmap_tag, i, entries) and the tag its (desc_size, desc_version, memory_map) fields",
@@ -66,14 +80,40 @@ def run(ctx):
     mmap = ("ref", fld(me, tf["memory_map"]["i"]))
     L = ("len", mmap)
     agg = N(rt) if rt is not None else None
+    if agg is not None and agg[0] == "call" and agg[2] == (arg(1),):
+        # the private constructor is a unit of its own whose result is not a closed term (it calls into std): read its
+        # return value and the facts on its normal return directly; its only argument is memory_areas' own `self`
+        ci = F.insts.get(agg[1])
+        if ci is not None and ci.get("impl_self_name") == "EFIMemoryAreaIter" and not ci.get("impl_trait") and not ci.get("vis_pub"):
+            A2 = an.of(F, ci)
+            rt2, facts2 = A2.ret()
+            if rt2 is not None:
+                rt, agg = rt2, N(rt2)
+                facts = list(facts) + [f for f in facts2 if f not in facts]
     g_shape = agg is not None and agg[0] == "aggr" and agg[1][0] == "adt" and agg[1][1] == ITER
     ctx.check(g_shape, "S3", "constructor", "memory_areas() returns a freshly constructed EFIMemoryAreaIter", A.site(), how=G.show(rt)[:200], why=G.show(rt)[:300])
     if g_shape:
         names = agg[1][3]
         vals = dict(zip(names, agg[2]))
-        g = vals.get("mmap_tag") == arg(1) and vals.get("i") == ("c", 0) and vals.get("entries") == ("bin", "Div", L, dsz)
-        ctx.check(g, "S3", "fields", "the iterator starts with i = 0, entries = memory_map.len() / desc_size over the same tag", A.site(),
-                  how="i=0, entries=len/desc_size", why=str(vals)[:400])
+        if rep == "index":
+            g = vals.get("mmap_tag") == arg(1) and vals.get("i") == ("c", 0) and vals.get("entries") == ("bin", "Div", L, dsz)
+            ctx.check(g, "S3", "fields", "the iterator starts with i = 0, entries = memory_map.len() / desc_size over the same tag", A.site(),
+                      how="i=0, entries=len/desc_size", why=str(vals)[:400])
+        elif rep == "suffix":
+            rv_, dv_ = vals.get(suf_r[0]["name"]), vals.get(suf_d[0]["name"])
+            g = rv_ is not None and dv_ == dsz and _same_slice(rv_, mmap)
+            from .. import invariants as INV
+            inv = INV.stride_invariants(F).get(it["path"], [])
+            ctx.check(g and bool(inv), "S3", "fields", "the iterator starts with rest = the whole memory_map of the same tag and stride = desc_size, and "
+                      "`rest.len() % stride == 0` is an invariant of the struct (holds at construction, stride is never written, rest is only ever "
+                      "replaced by rest[stride..])", A.site(), how="rest = &tag.memory_map, stride = desc_size; invariant %s" % inv, why="%s; invariant %s" % (str(vals)[:300], inv))
+        else:
+            cv = vals.get(chunk_f[0]["name"])
+            g = cv is not None and cv[0] == "call" and cn(cv[1]) == "core::slice::chunks_exact" and len(cv[2]) == 2 and cv[2][1] == dsz and \
+                _same_slice(cv[2][0], mmap)
+            ctx.check(g, "S3", "fields", "the iterator starts as memory_map.chunks_exact(desc_size) over the same tag's map: memory_map.len() / desc_size chunks, "
+                      "the i-th being the desc_size bytes at offset i * desc_size (std contract)", A.site(),
+                      how="slots = chunks_exact(&tag.memory_map, desc_size)", why=G.show(cv)[:300] if cv is not None else str(vals)[:300])
         nf = [N(f) for f in facts]
 
         def has(f):
@@ -133,6 +173,10 @@ def run(ctx):
     nx = F.find(impl_self_name="EFIMemoryAreaIter", name="next", impl_trait="core::iter::traits::iterator::Iterator")
     if len(nx) != 1:
         ctx.fail("ANCHOR", "next", "Iterator::next for EFIMemoryAreaIter exists", "", "%d" % len(nx))
+    elif rep == "chunks":
+        next_chunks(ctx, F, nx[0], chunk_f[0], desc)
+    elif rep == "suffix":
+        next_suffix(ctx, F, nx[0], suf_r[0], suf_d[0])
     else:
         B = an.of(F, nx[0])
         b = B.body
@@ -192,6 +236,20 @@ def run(ctx):
     ln = F.find(impl_self_name="EFIMemoryAreaIter", name="len", impl_trait="core::iter::traits::exact_size::ExactSizeIterator")
     if len(ln) != 1:
         ctx.fail("IT", "len", "ExactSizeIterator::len is implemented for EFIMemoryAreaIter", "", "%d impls" % len(ln))
+    elif rep == "suffix":
+        C = an.of(F, ln[0])
+        rt, _ = C.ret()
+        selfv = deref(arg(1))
+        want = ("bin", "Div", ("len", fld(selfv, suf_r[0]["i"])), fld(selfv, suf_d[0]["i"]))
+        ctx.check(rt is not None and N(rt) == want, "IT", "len", "len() == rest.len() / stride: the number of items still to come", C.site(), how=G.show(rt), why=G.show(rt))
+    elif rep == "chunks":
+        C = an.of(F, ln[0])
+        rt, _ = C.ret()
+        r = N(rt) if rt is not None else None
+        slots = ("ref", fld(deref(arg(1)), chunk_f[0]["i"]))
+        g = r is not None and r[0] == "call" and "ExactSizeIterator" in str(r[1]) and str(r[1]).endswith("::len") and "ChunksExact" in str(r[1]) and r[2] == (slots,)
+        ctx.check(g, "IT", "len", "len() == the remaining chunk count of the delegate (std: ExactSizeIterator for ChunksExact): the number of items still to come",
+                  C.site(), how=G.show(rt), why=G.show(rt))
     else:
         C = an.of(F, ln[0])
         rt, _ = C.ret()
@@ -201,8 +259,11 @@ def run(ctx):
     cl = [f for k, f in F.fns.items() if f.get("impl_self_name") == "EFIMemoryAreaIter" and f.get("impl_trait") == "core::clone::Clone" and f.get("name") == "clone"]
     ctx.check(len(cl) == 1 and cl[0].get("derived"), "IT", "clone", "Clone is derived (copies every field)", cl[0].get("span", "") if cl else "", how="derived", why=str(len(cl)))
     from . import iters
-    remaining = ("bin", "Sub", fld(deref(arg(1)), itf["entries"]["i"]), fld(deref(arg(1)), itf["i"]["i"]))
-    iters.check_overrides(ctx, F, "IT", "EFIMemoryAreaIter", verified={"size_hint": iters.size_hint_is(F, (remaining,))})
+    if rep == "index":
+        remaining = ("bin", "Sub", fld(deref(arg(1)), itf["entries"]["i"]), fld(deref(arg(1)), itf["i"]["i"]))
+        iters.check_overrides(ctx, F, "IT", "EFIMemoryAreaIter", verified={"size_hint": iters.size_hint_is(F, (remaining,))})
+    else:
+        iters.check_overrides(ctx, F, "IT", "EFIMemoryAreaIter", verified={})
     # the extents of the map bytes themselves (memory_map = [24, size)) are C05's premises for this kind
     ctx.import_prop("C05", only=lambda o: "EFIMemoryMapTag" in o.key, label="EFIMemoryMapTag")
     ctx.note("no overflow in i * desc_size: i < len/desc_size implies i * desc_size < len <= isize::MAX (hand step of the strided lemma)")
@@ -214,6 +275,122 @@ def run(ctx):
         ["rustc MIR/layout", "mb2rules TERMS/GUARD/CHAIN/REACH", "hand proof of the strided lemma from S1-S5 (DESIGN.md)", "std: <*const T>::as_ref, slice::as_ptr"],
         "one obligation per premise S1..S5, IT, LY",
     )
+
+
+def _same_slice(x, mmap):
+    for _ in range(5):
+        if x == mmap:
+            return True
+        if isinstance(x, tuple) and x and x[0] in ("ref", "deref") and len(x) == 2:
+            x = x[1]
+        elif isinstance(x, tuple) and x and x[0] == "unsize":
+            x = x[1]
+        else:
+            break
+    m = mmap
+    for _ in range(3):
+        if x == m:
+            return True
+        if isinstance(m, tuple) and m and m[0] in ("ref", "deref") and len(m) == 2:
+            m = m[1]
+        else:
+            break
+    return x == m
+
+
+def next_suffix(ctx, F, nxi, fr, fd):
+    """next() of the cursor representation: `if rest.is_empty() {None} else { let (slot, tail) = rest.split_at(stride); rest = tail;
+    Some(&*(slot.as_ptr() as *const EFIMemoryDesc)) }`.  By induction over the calls (invariant rest.len() % stride == 0, S3) the
+    i-th item is at map offset i * stride and there are exactly len / stride of them."""
+    B = an.of(F, nxi)
+    b = B.body
+    selfv = deref(arg(1))
+    rest = fld(selfv, fr["i"])
+    stride = fld(selfv, fd["i"])
+    ex = CH.exits(B)
+    nones = [e for e in ex if e.kind == "None"]
+    somes = [e for e in ex if e.kind == "Some"]
+    empty = [("cmp", "Eq", ("len", rest), ("c", 0))]
+    g1 = len(nones) == 1 and len(somes) == 1 and [N(f) for f in nones[0].own] in (empty, [("cmp", "Le", ("len", rest), ("c", 0))])
+    ctx.check(g1, "S1", "exhausted", "next() returns None exactly when the rest of the map is empty", B.site(), how=str(nones)[:200], why=str(ex)[:400])
+    ctx.check(g1, "S1", "guard", "an item is formed only when the rest is non-empty (then it holds at least one full stride, by the invariant)", B.site(),
+              how="negated emptiness test dominates the item", why=str(ex)[:300])
+    g2 = False
+    why = "no item exit"
+    if somes:
+        x = N(somes[0].payload) if somes[0].payload is not None else ("opq", "none")
+        why = G.show(x)[:300]
+        for _ in range(6):
+            if x[0] == "unwrap" and x[1][0] == "call" and "as_ref" in str(x[1][1]) and len(x[1][2]) == 1:
+                x = x[1][2][0]
+            elif x[0] in ("ref", "deref") and len(x) == 2:
+                x = x[1]
+            else:
+                break
+        # start of the first `stride` bytes of the rest = start of the rest
+        g2 = x in (("asptr", rest), ("asptr", ("deref", rest))) and DESC in (nxi["body"]["locals"][0]["ty"] or "")
+    ctx.check(g2, "S2", "pointer", "the descriptor pointer is the start of the rest: memory_map.as_ptr() + (bytes consumed so far) = + i * stride", B.site(), how=why, why=why)
+    ctx.check(g2, "S2", "reference", "the yielded item is the EFIMemoryDesc reference at that pointer", B.site(), how=why, why=why)
+    writes = [(bb, name, N(v)) for (bb, _si, name, v) in an.writes_through(B, 1)]
+    want = ("sub", rest, stride, ("len", rest))
+    gw = len(writes) == 1 and writes[0][1] == fr["name"] and writes[0][2] == want
+    none_clean = bool(nones) and all(not b.dominates(w[0], nones[0].bb) for w in writes)
+    some_adv = bool(somes) and all(b.dominates(w[0], somes[0].bb) for w in writes)
+    ctx.check(gw and none_clean and some_adv, "S5", "writes", "next() writes only the rest, as rest[stride..], on the path that yields an item; the None path writes nothing",
+              B.site(), how=str(writes)[:200], why=str(writes)[:300])
+
+
+def next_chunks(ctx, F, nxi, chunk_field, desc):
+    """next() of the delegating representation: `self.slots.next().map(|slot| &*(slot.as_ptr() as *const EFIMemoryDesc))`.
+    S1: None exactly when the delegate is exhausted; S2: the item is the EFIMemoryDesc reference at the start of the chunk the
+    delegate yields (the chunk has desc_size >= 40 bytes by S4 and starts at offset i * desc_size by the std contract);
+    S5: next() touches the state only by calling the delegate's next()."""
+    B = an.of(F, nxi)
+    b = B.body
+    slots = fld(deref(arg(1)), chunk_field["i"])
+    ex = CH.exits(B)
+    nones = [e for e in ex if e.kind == "None"]
+    somes = [e for e in ex if e.kind == "Some"]
+    inner = [(bb, t) for bb, t in b.calls() if "ChunksExact" in (M.callee_key(t) or "") and (M.callee_path(t) or "").endswith("Iterator>::next")]
+    NX = N(B.tb.call_value(inner[0][1], inner[0][0])) if len(inner) == 1 else None
+    g_arg = NX is not None and NX[0] == "call" and len(NX[2]) == 1 and NX[2][0] in (("ref", slots), slots)
+    g1 = len(nones) == 1 and len(somes) == 1 and g_arg and CH.own_is_variant(nones[0], NX, 0) and CH.own_is_variant(somes[0], NX, 1)
+    ctx.check(g1, "S1", "exhausted", "next() returns None exactly when the delegate (chunks_exact over the map) is exhausted, and an item exactly when it yields a chunk",
+              B.site(), how="exits guarded by the discriminant of ChunksExact::next(&mut self.slots)", why=str(ex)[:400])
+    ctx.check(g1, "S1", "guard", "the descriptor reference is formed only from a chunk the delegate yielded (a full desc_size-byte chunk inside the map)",
+              B.site(), how="payload of the delegate's Some answer", why=str(ex)[:300])
+    g2 = False
+    why = "no item exit"
+    if somes and NX is not None:
+        chunk = CH.payload_of(NX, 1)
+        x = N(somes[0].payload) if somes[0].payload is not None else ("opq", "none")
+        why = G.show(x)[:300]
+        for _ in range(6):
+            if x[0] == "unwrap" and x[1][0] == "call" and "as_ref" in str(x[1][1]) and len(x[1][2]) == 1:
+                x = x[1][2][0]       # ptr.as_ref().unwrap(): the reference at ptr (panics on null, which a slice pointer is not)
+            elif x[0] in ("ref", "deref") and len(x) == 2:
+                x = x[1]
+            else:
+                break
+        g2 = x == ("asptr", chunk) or x == ("asptr", ("deref", chunk)) or x == ("asptr", ("ref", chunk))
+        item_ty = (nxi["body"]["locals"][0]["ty"] or "")
+        g2 = g2 and DESC in item_ty
+    ctx.check(g2, "S2", "pointer", "the descriptor pointer is the start of the yielded chunk: memory_map.as_ptr() + i * desc_size (std contract of chunks_exact)",
+              B.site(), how=why, why=why)
+    ctx.check(g2, "S2", "reference", "the yielded item is the EFIMemoryDesc reference at that pointer", B.site(), how=why, why=why)
+    # state: only the delegate's next() takes the state mutably, nothing is written directly
+    writes = [(bb, name, N(v)) for (bb, _si, name, v) in an.writes_through(B, 1)]
+    others = []
+    al = an.aliases_of(B, 1)
+    for bb, t in b.calls():
+        if (bb, t) in inner:
+            continue
+        for a_ in t["args"]:
+            pl = a_.get("m") or a_.get("c")
+            if pl is not None and pl["l"] in al and not pl.get("p"):
+                others.append(M.callee_path(t))
+    ctx.check(not writes and not others and len(inner) == 1, "S5", "writes", "next() changes the iterator only by advancing the delegate once (one call of ChunksExact::next on self.slots)",
+              B.site(), how="no direct writes; one delegate call", why="writes %s; other calls taking self %s; delegate calls %d" % (writes, others, len(inner)))
 
 
 def raw(nterm, F, ty):
